@@ -708,7 +708,7 @@ class AggregateSpectroscopy(AggregateBase):
             
             
         """
-        if self._diagonalized:
+        if not self._diagonalized:
             if verbose > 0:
                 print("Diagonalizing aggregate")
             self.diagonalize()
@@ -835,7 +835,7 @@ class AggregateSpectroscopy(AggregateBase):
             
             
         """
-        if self._diagonalized:
+        if not self._diagonalized:
             if verbose > 0:
                 print("Diagonalizing aggregate")
             self.diagonalize()
